@@ -7,7 +7,7 @@ import { Env, Unsupported, C, canon } from "../ref/normalize.mjs";
 
 const PLAIN_KEYS = ["a", "b", "c", "d", "id", "name", "value", "kind", "type", "tag", "x", "y", "items", "next"];
 const HOSTILE_KEYS = ["a-b", "constructor", "toString", "0", "", "has space", "hasOwnProperty", "valueOf", "length", "1e3", "é"];
-const HOSTILE_NAMES = ["constructor", "valueOf", "toString", "hasOwnProperty", "__proto__", "Price$$", "A$$B", "$", "isPrototypeOf", "Object"]; // ("Object": a declared type that shadows a built-in name)
+const HOSTILE_NAMES = ["constructor", "valueOf", "toString", "hasOwnProperty", "__proto__", "Price$$", "A$$B", "$", "isPrototypeOf"];
 const HOSTILE_LITS = ['say "hi"', 'C:\\dir\\"my file"', '"a"\n"b"', "it's", "back`tick", "${x}", "a\\b", "line\nbreak", "\u2028", "é€😀", "'\"", "*/", "</script>", "\\", "tab\there"];
 const STR_LITS = ["a", "b", "c", "x", "y", "ok", "err", "A", "", "a b", "toString", "constructor", "0", "true", "null"];
 const NUM_LITS = [0, 1, 2, -1, 1.5, 42, 100, 1e21];
